@@ -281,8 +281,49 @@ func generate(rng *vh.Rng, hostile, withSib bool) Case {
 	if rng.Intn(3) == 0 {
 		wCtl = 2 + rng.Intn(4)
 	}
+	// control scripts: unusual but admissible orders of control messages (discard twice, restart twice, restart
+	// without discard ...), each followed by ticks and the collection of its acknowledgement, injected once at a
+	// random point; ordinary traffic continues afterwards and the drain tail decides whether service resumed
+	var script []uint64
+	scriptAt := -1
+	if rng.Intn(6) == 0 {
+		scripts := [][]uint64{
+			{vh.FDiscard, vh.FDiscard, vh.FRestart},
+			{vh.FDiscard, vh.FRestart, vh.FRestart},
+			{vh.FRestart},
+			{vh.FRestart, vh.FRestart},
+			{vh.FDiscard, vh.FDiscard, vh.FRestart, vh.FRestart},
+			{vh.FDiscard, vh.FRestart, vh.FDiscard, vh.FRestart},
+		}
+		script = scripts[rng.Intn(len(scripts))]
+		scriptAt = rng.Intn(n/2 + 1)
+		wCtl = 0
+	}
+	var queued []Event
 	for i := 0; i < n; i++ {
 		var e Event
+		if i == scriptAt {
+			for _, fl := range script {
+				m := vh.Msg{ID: ctlID, Kind: "KCtrl", Src: 20, Dst: pCtl, Flags: fl}
+				ctlID++
+				queued = append(queued, Event{E: "dc", Msg: &m}, Event{E: "tick"}, Event{E: "tick"}, Event{E: "rc"})
+			}
+			scriptAt = -1
+		}
+		if len(queued) > 0 {
+			e = queued[0]
+			queued = queued[1:]
+			if e.Msg != nil {
+				fixMsg(e.Msg)
+			}
+			crashed := r.apply(&e)
+			c.Events = append(c.Events, e)
+			if crashed {
+				break
+			}
+			i--
+			continue
+		}
 		switch rng.Pick(wTop, wAns, 25, 8, 12, wCtl, wCtl) {
 		case 0:
 			addr := uint64(rng.Intn(64)) * 4
